@@ -36,6 +36,7 @@ def endPkts : String → List Pkt × Nat
   | "disconnect" => ([⟨2, 2, .disconnect⟩], 2)
   | "protoerr" => ([⟨2, 2, .bad⟩], 2)
   | "oversize" => ([⟨5, 268435460, .normal []⟩], 5)
+  | "badfull" => ([⟨4, 16384, .bad⟩], 16384)   -- an illegal packet of exactly the ring size (`cfg.cap`)
   | _ => ([], 0)
 
 def baseSh : Sh := { willFlag := true, clean := true }
